@@ -3,7 +3,9 @@ package main
 // Real raft.NewConsensus nodes on loopback libp2p hosts (thorough tier).
 //
 // kind raft1: one node. Events (replica 0):
-//   a   LogPin / LogUnpin of the next op (commit); obs after the call returned
+//   a   LogPin / LogUnpin of the next submitted op (commit); obs after the call returned.
+//       Emitted as x when the call returned an error (obs fail~…): commit() refuses an operation
+//       that cannot be decoded (3d753d4); the op is then not part of the committed sequence (G bit 0).
 //   s   forced Raft snapshot
 //   d   Consensus.Shutdown (snapshot on shutdown), host closed
 //   o   raft.OfflineState on the data folder of the stopped node
@@ -359,9 +361,12 @@ func (n *node) offline() (string, error) {
 // ---------- single-node scenarios ----------
 
 type single struct {
-	ops     []op
-	n       *node
-	next    int // next op to submit
+	ops       []op
+	n         *node
+	next      int    // next op to submit
+	acc       []byte // per submitted op: '1' acknowledged (or found in the log after a kill), '0' refused
+	committed int    // ops acknowledged / known to be in the log
+	tokOut    string // the token the last event is emitted as, when it differs from the input token
 	child   *exec.Cmd
 	childIn *bufio.Writer
 	childRd *bufio.Scanner
@@ -390,6 +395,7 @@ func (s *single) event(tok string) (string, error) {
 		if e2 != nil {
 			return "", e2
 		}
+		s.noteAnswer(res)
 		return fmt.Sprintf("%s~%d~%s~%s", res, n.appliedOps(), n.view(), sortedCalls(calls)), nil
 	case code == "s" || code == "n":
 		if !n.up {
@@ -438,7 +444,7 @@ func (s *single) event(tok string) (string, error) {
 		s.child.Process.Kill()
 		s.child.Wait()
 		s.child = nil
-		a := s.next
+		a := s.committed
 		return fmt.Sprintf("ok~%d~D~-", a), nil
 	case strings.HasPrefix(code, "R"):
 		if n.up {
@@ -464,7 +470,16 @@ func (s *single) event(tok string) (string, error) {
 			return "", err
 		}
 		c := len(n.idxOf)
-		s.next = c
+		if c > s.committed && s.next < len(s.ops) {
+			// the op in flight when the process was killed made it into the log
+			s.next++
+			s.acc = append(s.acc, '1')
+		}
+		if c < s.committed {
+			// acknowledged entries are missing from the log: the replay is expected to reach them
+			c = s.committed
+		}
+		s.committed = c
 		// the snapshot's op count could not be mapped before the log was readable (kill case)
 		if f2, err := n.snapshotOps(); err == nil && f2 >= 0 && f2 < from {
 			from = f2
@@ -477,7 +492,7 @@ func (s *single) event(tok string) (string, error) {
 		if !got && n.view() != "E" {
 			return "", infra("replay tracker calls not received (%d of %d)", len(calls), c-from)
 		}
-		// arrival order at the tracker is kept: the log is replayed as one batch (K29)
+		// arrival order at the tracker is kept: the log is replayed as one batch, the calls are synchronous
 		cs := "-"
 		if len(calls) > 0 {
 			cs = strings.Join(calls, "+")
@@ -485,6 +500,24 @@ func (s *single) event(tok string) (string, error) {
 		return fmt.Sprintf("ok~%d~%s~%s~%d", n.appliedOps(), n.view(), cs, from), nil
 	}
 	return "", fmt.Errorf("bad token %s", tok)
+}
+
+// noteAnswer records what LogPin / LogUnpin answered for the op just submitted.
+func (s *single) noteAnswer(res string) {
+	if res == "fail" {
+		s.acc = append(s.acc, '0')
+		s.tokOut = "0x"
+	} else {
+		s.acc = append(s.acc, '1')
+		s.committed++
+	}
+}
+
+func (s *single) gateTok() string {
+	if len(s.acc) == 0 {
+		return "G-"
+	}
+	return "G" + string(s.acc)
 }
 
 func (s *single) appliedOrZero() int {
@@ -619,6 +652,7 @@ func (s *single) childApply() (string, error) {
 	if !strings.HasPrefix(l, "OBS ") {
 		return "", infra("child said %q", l)
 	}
+	s.noteAnswer(strings.SplitN(l[4:], "~", 2)[0])
 	return l[4:], nil
 }
 
@@ -678,6 +712,10 @@ func runSingle(kind string, ops []op, events []string) ([]op, []string, []string
 			s.childGo()
 			time.Sleep(time.Duration([]int{0, 0, 1, 2, 4, 8}[(len(ops)*7+len(obs))%6]) * time.Millisecond)
 		}
+		if e == "0x" {
+			e = "0a" // a replayed case: whether the submission is refused is decided by the code
+		}
+		s.tokOut = ""
 		o, err := s.event(e)
 		if err != nil {
 			return nil, nil, nil, err
@@ -686,21 +724,20 @@ func runSingle(kind string, ops []op, events []string) ([]op, []string, []string
 			e = "0n"
 		}
 		if strings.HasPrefix(e, "0R") && !strings.HasPrefix(o, "noop") {
-			c := len(n.idxOf)
-			e = fmt.Sprintf("0R%d", c)
-			if kind == "kill" && c < len(committed) && s.next <= c {
-				// ops which were never submitted or did not survive are not part of the history
-			}
+			e = fmt.Sprintf("0R%d", s.committed)
+		}
+		if s.tokOut != "" {
+			e = s.tokOut
 		}
 		obs = append(obs, o)
 		evOut = append(evOut, e)
 	}
-	if kind == "kill" {
-		// the committed sequence is what the log holds plus what was committed afterwards
-		if s.next < len(committed) {
-			committed = committed[:s.next]
-		}
+	// the submitted sequence is what was handed to LogPin / LogUnpin (kill: the op in flight counts
+	// when it is found in the log); ops never submitted are not part of the history
+	if s.next < len(committed) {
+		committed = committed[:s.next]
 	}
+	obs = append([]string{s.gateTok()}, obs...)
 	return committed, evOut, obs, nil
 }
 
@@ -759,9 +796,12 @@ func genRaftCase(r *common.Rng, kind string, k int) (int, []op, []string) {
 	}
 	nops := r.Range(3, 12)
 	ops := genOps(r, nops, 3)
-	if k%5 == 4 { // known-finding stream: last op with origins
+	if k%5 == 4 { // the last submission is refused by commit() (was the K01a / K01b stream)
 		ops = append(ops, undecodableOp(r))
 		nops++
+	} else if k%5 == 2 { // refused submissions in the middle: the history goes on as if they had not been made
+		ops = sprinkle(r, ops, r.Range(1, 2))
+		nops = len(ops)
 	}
 	var ev []string
 	restarts := 0
